@@ -727,6 +727,16 @@ def transLoop (cur : Tm × Tm) : List (Tm × Tm) → Tm × Tm
     else if cur.1 == r then transLoop (l, cur.2) rest
     else transLoop cur rest
 
+/-- the premises that `transLoop` actually attaches are first-order equalities (skipped ones may be anything) -/
+def transUsesEq (cur : Tm × Tm) : List (Nat × Tm × Tm) → Bool
+  | [] => true
+  | (k, l, r) :: rest =>
+    if cur.2 == l then k == 7 && transUsesEq (cur.1, r) rest
+    else if cur.2 == r then k == 7 && transUsesEq (cur.1, l) rest
+    else if cur.1 == l then k == 7 && transUsesEq (cur.2, r) rest
+    else if cur.1 == r then k == 7 && transUsesEq (l, cur.2) rest
+    else transUsesEq cur rest
+
 def destEqs : List Tm → Option (List (Nat × Tm × Tm))
   | [] => some []
   | e :: rest =>
@@ -965,8 +975,8 @@ def wellKinded : Rule → List Tm → List Seq → Bool
        | none => true
      | none => true)
   | .transRule, _, ps => match destEqs (ps.map (·.prop)) with
-    | some es => es.all (fun e => e.1 == 7)
-    | none => true
+    | some ((k0, l0, r0) :: rest) => k0 == 7 && transUsesEq (l0, r0) rest
+    | _ => true
   | .laRwEq, [goal], _ => match goal with
     | mkIff (mkIff _ _) _ | mkEq (mkIff _ _) _ => false
     | _ => true
